@@ -70,6 +70,11 @@ def directed_bases():
          "do top u1.new n1", "do top u1.open v4", "do top u1.bind 10.0.0.2:6001",
          "do top u0.new n0", "do top u0.open v4", "do top u0.bind 10.0.0.1:6000"]
     u += ["do top u0.send_to 10.0.0.2:6001 len=65000 id=%d" % i for i in range(160)]
+    # u2 / u3: async_receive (no endpoint) and wait-for-read on sockets nobody sends to - outstanding at
+    # every boundary; u1 (the addressee of the burst) waits for read until the first datagram arrives
+    u += ["do top u2.new n1", "do top u2.open v4", "do top u2.bind 10.0.0.2:6002", "do top u2.recv_noep h9 cap=100",
+          "do top u3.new n1", "do top u3.open v4", "do top u3.bind 10.0.0.2:6003", "do top u3.wait_read h8",
+          "do top u1.wait_read h10"]
     u += ["do top u0.wait_write h7", "do top u0.recv h6 cap=100", "do top run", "end"]
     out.append("\n".join(u) + "\n")
     out.append("\n".join(["== bd_accnew"] + hdr + [
@@ -81,6 +86,18 @@ def directed_bases():
         "do h3 s1.new n0", "do h3 s1.connect 10.0.0.2:7000 h4",
         "do h0 s5.read h5 cap=100",
         "do top run", "end"]) + "\n")
+    # the other two accept forms (peer socket; peer socket + endpoint out-parameter) pending over
+    # several boundaries before any connect is made
+    for sid, form in (("bd_acc", "accept"), ("bd_accep", "accept_ep")):
+        out.append("\n".join(["== " + sid] + hdr + [
+            "do top a0.new n1", "do top a0.open v4", "do top a0.bind 0.0.0.0:7000", "do top a0.listen",
+            "do top s0.new n1", "do top a0.%s s0 h0" % form,
+            "do top t0.expires_after 1000000", "do top t0.wait h1",
+            "do top t1.expires_after 2000000", "do top t1.wait h2",
+            "do top t2.expires_after 3000000", "do top t2.wait h3",
+            "do h3 s1.new n0", "do h3 s1.connect 10.0.0.2:7000 h4",
+            "do h0 s0.read h5 cap=100",
+            "do top run", "end"]) + "\n")
     out.append("\n".join(["== bd_res"] + hdr + [
         "dns a.com err=ok lat=40000000 ips=1.2.3.4", "dns b.com err=host_not_found lat=10000000",
         "do top r0.new n0 tcp",
@@ -96,6 +113,18 @@ def directed_bases():
         "do top s2.new n0", "do top s2.connect 10.0.0.2:7001 h2",
         "do h1 s1.write h3 stream=1 len=3000",
         "do h0 s0.read h4 cap=100",
+        "do top run", "end"]) + "\n")
+    # wait-for-read outstanding on both sides of an ESTABLISHED connection on which nothing is ever
+    # written: only an intervention can complete it
+    out.append("\n".join(["== bd_conn2"] + hdr + [
+        "do top a0.new n1", "do top a0.open v4", "do top a0.bind 0.0.0.0:7000", "do top a0.listen",
+        "do top s0.new n1", "do top a0.accept s0 h0",
+        "do top s1.new n0", "do top s1.connect 10.0.0.2:7000 h1",
+        "do h0 s0.wait_read h4",
+        "do h1 s1.wait_read h3",
+        "do top t0.expires_after 25000000", "do top t0.wait h7",
+        "do top t1.expires_after 26000000", "do top t1.wait h8",
+        "do top t2.expires_after 27000000", "do top t2.wait h9",
         "do top run", "end"]) + "\n")
     # segments of a write sit in a slow queue and are then dropped by the next hop: the drop
     # notifications arrive after the intervention on the sender
@@ -163,13 +192,46 @@ def directed_bases():
         "do top u0.new n0", "do top u0.open v4", "do top u0.bind 10.0.0.1:6000",
         "do top u1.new n1", "do top u1.open v4", "do top u1.bind 10.0.0.2:6001",
         "do top u0.send_to 10.0.0.2:6001 len=100 id=1", "do top u1.send_to 10.0.0.1:6000 len=100 id=2",
+        "do h1 u0.recv h20 cap=200",
+        "do top run", "end"]) + "\n")
+    # the mirror image: the ACCEPTED socket (its forwarder was installed by the acceptor) is the idle
+    # sender, its segments are dropped by a later hop of n1's outgoing route; the connector reads
+    out.append("\n".join(["== bd_mvdrop2", "node n0 10.0.0.1", "node n1 10.0.0.2",
+        "hop q0 queue bw=1000000 lat=5000000 cap=0", "hop q1 queue bw=1000000 lat=5000000 cap=0",
+        "hop d0 dropper drop=2,4",
+        "route out 10.0.0.1 q0", "route out 10.0.0.2 q1 d0", "route in * q0",
+        "do top a0.new n1", "do top a0.open v4", "do top a0.bind 0.0.0.0:7000", "do top a0.listen",
+        "do top s0.new n1", "do top a0.accept s0 h0",
+        "do top s1.new n0", "do top s1.connect 10.0.0.2:7000 h1",
+        "do h0 s0.write h3 stream=1 len=2950",
+        "do h1 s1.read h4 cap=20000", "do h4 s1.read h5 cap=20000", "do h5 s1.read h6 cap=20000",
+        "do top u0.new n0", "do top u0.open v4", "do top u0.bind 10.0.0.1:6000",
+        "do top u1.new n1", "do top u1.open v4", "do top u1.bind 10.0.0.2:6001",
+        "do top u0.send_to 10.0.0.2:6001 len=100 id=1", "do top u1.send_to 10.0.0.1:6000 len=100 id=2",
+        "do h0 u1.recv h20 cap=200",
         "do top run", "end"]) + "\n")
     return out
 
-# directed base -> (objects whose every intervention is run, boundaries 1..K)
-DIRECTED = {"bd_udpw": (["u0"], 3), "bd_accnew": (["a0"], 5), "bd_res": (["r0"], 7), "bd_conn": (["s1", "s2", "a0"], 8),
-            "bd_drop": (["s1"], 30), "bd_hsops": (["s1", "s2", "s3"], 6), "bd_eqt": (["t0", "t1", "t2", "s1", "s2", "r0", "r1"], 4),
-            "bd_mvdrop": (["s1"], 20), "bd_rewait": (["t0"], 10)}
+# bd_accep s0: the server-side socket obtained through accept_ep, with a read outstanding, once the accept completed
+# directed base -> groups (objects whose every intervention is run, (first, last) after-handler boundary s<k>,
+# (first, last) after-clock-step boundary a<k>); one range = the same numbers for both kinds
+DIRECTED = {"bd_udpw": [(["u0"], (1, 3)), (["u2", "u3"], (1, 2))],
+            "bd_accnew": [(["a0"], (1, 5))], "bd_accep": [(["a0"], (1, 5)), (["s0"], (8, 10))], "bd_acc": [(["a0"], (1, 4))],
+            "bd_res": [(["r0"], (1, 7))],
+            # s0: peer of the pending accept (1..4, never destroyed there), then a read on the accepted side of an
+            # established connection before anything was written (5..8)
+            "bd_conn": [(["s1", "s2", "a0", "s0"], (1, 8))],
+            "bd_conn2": [(["s0"], (5, 7)), (["s1"], (10, 13), (9, 11))],
+            # s0: the receiver while segments to it are being dropped
+            "bd_drop": [(["s1"], (1, 30)), (["s0"], (10, 14), (9, 11))],
+            # a0: s2's connection request gets queued on the acceptor with no accept outstanding
+            "bd_hsops": [(["s1", "s2", "s3", "a0"], (1, 6))],
+            "bd_eqt": [(["t0", "t1", "t2", "s1", "s2", "r0", "r1"], (1, 4))],
+            # u0 / u1: idle UDP sockets with one datagram in flight each way (u0's is dropped at 5.2 ms, u1's arrives at
+            # 10.1 ms); s0: the receiver while segments to it are dropped and retransmitted
+            "bd_mvdrop": [(["s1"], (1, 20)), (["u0"], (1, 10)), (["u1"], (1, 5)), (["s0"], (15, 22), (13, 18))],
+            "bd_mvdrop2": [(["s0"], (9, 22), (7, 20)), (["u1"], (13, 15), (11, 13))],
+            "bd_rewait": [(["t0"], (1, 10))]}
 
 
 def objects_of(scn):
@@ -184,7 +246,8 @@ def objects_of(scn):
 
 def accept_peers(scn):
     """sockets named as the peer of an accept: they must stay valid until the accept completes
-    (asio's own contract), so they are never destroyed by an intervention"""
+    (asio's own contract). Static fallback, used only when the model's prediction of the base gave no
+    per-boundary information: matrix() protects a peer exactly while its accept is pending"""
     peers = set()
     for ln in scn.split("\n"):
         tk = ln.split()
@@ -201,10 +264,11 @@ def interventions(obj, uid, keep_alive=False):
                          "%s.wait_read h%d" % (obj, 50000 + uid)]
     if k == "a": return ["%s.cancel" % obj, "%s.close" % obj, "%s.close0" % obj, "%s.destroy" % obj,
                          "s7777.new n0 ; %s.accept s7777 h%d" % (obj, 50000 + uid),
-                         "%s.accept_new s7778 h%d" % (obj, 50000 + uid)]
+                         "%s.accept_new s7778 h%d" % (obj, 50000 + uid),
+                         "s7779.new n0 ; %s.accept_ep s7779 h%d" % (obj, 50000 + uid)]
     if k == "u": return ["%s.cancel" % obj, "%s.close" % obj, "%s.destroy" % obj,
                          "%s.recv h%d cap=64" % (obj, 50000 + uid), "%s.wait_read h%d" % (obj, 50000 + uid),
-                         "%s.wait_write h%d" % (obj, 50000 + uid)]
+                         "%s.wait_write h%d" % (obj, 50000 + uid), "%s.recv_noep h%d cap=64" % (obj, 50000 + uid)]
     if k == "r": return ["%s.cancel" % obj, "%s.destroy" % obj, "%s.resolve zz.com 1 h%d" % (obj, 50000 + uid)]
     return []
 
@@ -248,16 +312,23 @@ def matrix(bases, counts, seed, tier, advs=None, idle=None):
             if tk and tk[0] == "node": node = tk[1]; break
         na = advs.get(sid, 0)
         ks = [("s", k) for k in range(1, n + 1)] + [("a", k) for k in range(1, na + 1)]
+        def at(kind, k):
+            """(busy sockets, must-stay-alive sockets) at this boundary of the base"""
+            info = idle.get(sid, {}).get((kind, k))
+            if not info: return None, peers
+            return info[1], (info[2] if len(info) > 2 else peers)
         if sid in DIRECTED:
-            dobjs, dk = DIRECTED[sid]
-            for kind, k in [("s", k) for k in range(1, min(n, dk) + 1)] + [("a", k) for k in range(1, min(na, dk) + 1)]:
-                busy = idle.get(sid, {}).get((kind, k), (None, None))[1]
-                for o in dobjs:
-                    for iv in interventions(o, uid, o in peers) + move_interventions(o, uid, busy):
-                        uid += 1
-                        iv = re.sub(r"h5\d{4}", "h%d" % (50000 + uid), iv)
-                        if node: iv = iv.replace(" n0 ;", " %s ;" % node)
-                        out.append(with_intervention(b, k, iv, "%s%d_%d" % ("k" if kind == "s" else "a", k, uid), kind))
+            for grp in DIRECTED[sid]:
+                dobjs, (lo, hi) = grp[0], grp[1]
+                alo, ahi = grp[2] if len(grp) > 2 else (lo, hi)
+                for kind, k in [("s", k) for k in range(lo, min(n, hi) + 1)] + [("a", k) for k in range(alo, min(na, ahi) + 1)]:
+                    busy, alive = at(kind, k)
+                    for o in dobjs:
+                        for iv in interventions(o, uid, o in alive) + move_interventions(o, uid, busy):
+                            uid += 1
+                            iv = re.sub(r"h5\d{4}", "h%d" % (50000 + uid), iv)
+                            if node: iv = iv.replace(" n0 ;", " %s ;" % node)
+                            out.append(with_intervention(b, k, iv, "%s%d_%d" % ("k" if kind == "s" else "a", k, uid), kind))
             continue
         if tier == "quick":
             rng.shuffle(ks); ks = sorted(ks[:8])
@@ -266,9 +337,9 @@ def matrix(bases, counts, seed, tier, advs=None, idle=None):
             rng.shuffle(ks); ks = sorted(ks[:40])
         for kind, k in ks:
             cands = []
-            busy = idle.get(sid, {}).get((kind, k), (None, None))[1]
+            busy, alive = at(kind, k)
             for o in objs:
-                for iv in interventions(o, uid, o in peers) + move_interventions(o, uid, busy):
+                for iv in interventions(o, uid, o in alive) + move_interventions(o, uid, busy):
                     cands.append(iv)
             if tier == "quick":
                 rng.shuffle(cands); cands = cands[:4]
